@@ -602,11 +602,11 @@ def plan(tier, seed):
     q = tier == "quick"
     tasks = []
     for _ in range(6):
-        tasks.append(("calibrate", {"examples": 300 if q else 6000}))
+        tasks.append(("calibrate", {"examples": 300 if q else 20000}))
     for _ in range(7):
-        tasks.append(("select", {"examples": 300 if q else 6000}))
+        tasks.append(("select", {"examples": 300 if q else 20000}))
     for _ in range(3):
-        tasks.append(("enum_bool", {"examples": 300 if q else 6000}))
+        tasks.append(("enum_bool", {"examples": 300 if q else 20000}))
     for _ in range(4):
-        tasks.append(("sequence", {"examples": 200 if q else 4000}))
+        tasks.append(("sequence", {"examples": 200 if q else 12000}))
     return tasks
